@@ -138,9 +138,12 @@ def aCaseStmtOf (cv : Option TL × TL) : Except PyErr (Option TL × Option (Nat 
     | v0 :: _ => .ok (cv.1, some v0)
     | [] => .error .indexError
 
-/-- the `(cond, stmt)` pairs the loop of `_process_case` visits: the cases, then the appended `(None, [end_token])` -/
+/-- the `(cond, stmt)` pairs the loop of `_process_case` visits: the cases, then `(None, [end_token])` if there is an `END`
+child (repo commit e93eb2e; before it the entry was appended even with `end_token = None`) -/
 def aCaseStmts (endTok : Option (Nat × FNode)) : List (Option TL × TL) → Except PyErr (List (Option TL × Option (Nat × FNode)))
-  | [] => .ok [(none, endTok)]
+  | [] => .ok (match endTok with
+      | some e => [(none, some e)]
+      | none => [])                       -- `if end_token is not None: cases.append((None, [end_token]))`
   | cv :: rest =>
     match aCaseStmtOf cv, aCaseStmts endTok rest with
     | .ok x, .ok xs => .ok (x :: xs)
@@ -155,6 +158,8 @@ def aCase (char : Text) (st : ASt) (ks : List FNode) : Except PyErr (List FNode 
   | .ok cases =>
     let endTok := tl.find? (fun e => e.2.matchKw "END")
     let maxW := (cases.map fun cv => condWidth cv.1).foldl max 0
+    -- `max(condition_width)` of an empty list: no case and no END child
+    if cases.isEmpty && endTok.isNone then .error .valueError else
     match aCaseStmts endTok cases with
     | .error e => .error e
     | .ok items => (aCaseLoop char st maxW 0 tl items).map fun tl' => (untag tl', st)
